@@ -339,3 +339,183 @@ Proof.
     + lia.
   - apply Forall_app. split; [apply Forall_upd_list; auto|]. constructor; [reflexivity|constructor].
 Qed.
+
+(** ---- the model's primitives, with caching on, in terms of the list updates above *)
+Lemma getdiskblock_shape fr size :
+  f_cache fr = true -> 0 <= size ->
+  exists fr', getdiskblock fr size = (f_end fr, fr', []) /\ f_blocks fr' = f_blocks fr /\
+              f_end fr' = f_end fr + size /\ f_cache fr' = true.
+Proof.
+  intros Hc Hs. unfold getdiskblock. rewrite Hc. unfold getdiskblock_advance.
+  destruct (0 <? size); eexists; (split; [reflexivity|]); simpl; auto.
+Qed.
+
+Definition dd_valid (d : dd) : bool := negb (d_off d =? INVALID_OFFSET) && negb (d_len d =? INVALID_LENGTH).
+
+Lemma update_dd_shape fr bi i d :
+  f_cache fr = true ->
+  exists fr', update_dd fr bi i d = (fr', []) /\
+    map m_blk (f_blocks fr') = upd_list bi (fill i d) (map m_blk (f_blocks fr)) /\
+    f_cache fr' = true /\ f_end fr <= f_end fr' /\
+    (dd_valid d = true -> d_off d + d_len d <= f_end fr') /\
+    (f_end fr' = f_end fr \/ (dd_valid d = true /\ f_end fr' = d_off d + d_len d)).
+Proof.
+  intros Hc. unfold update_dd. rewrite Hc.
+  assert (E : map m_blk (upd_block bi (fun mb => mkmb (set_dds (m_blk mb) (set_nth i d (b_dds (m_blk mb)))) true) (f_blocks fr))
+              = upd_list bi (fill i d) (map m_blk (f_blocks fr))).
+  { rewrite upd_block_upd_list. apply map_upd_list. reflexivity. }
+  unfold dd_valid.
+  destruct (negb (d_off d =? INVALID_OFFSET) && negb (d_len d =? INVALID_LENGTH)) eqn:V; simpl.
+  - destruct (Z.ltb_spec (f_end fr) (d_off d + d_len d)); eexists; (split; [reflexivity|]); simpl;
+      repeat split; auto; try lia.
+  - eexists; (split; [reflexivity|]); simpl; repeat split; auto; try lia; try discriminate.
+Qed.
+
+Lemma new_dd_block_shape fr hd tl :
+  f_cache fr = true -> f_blocks fr = hd :: tl -> 0 <= b_ndds (m_blk hd) ->
+  exists fr', new_dd_block fr =
+      (fr', [(f_end fr, enc_hdr (b_ndds (m_blk hd)) 0);
+             (f_end fr + hdr_sz, enc_dds (repeat nil_dd (Z.to_nat (b_ndds (m_blk hd)))))]) /\
+    map m_blk (f_blocks fr') =
+      upd_list (length (map m_blk (f_blocks fr)) - 1) (fun m => set_next m (f_end fr)) (map m_blk (f_blocks fr))
+      ++ [new_blk (f_end fr) (b_ndds (m_blk hd))] /\
+    f_end fr' = f_end fr + 6 + b_ndds (m_blk hd) * 12 /\ f_cache fr' = true.
+Proof.
+  intros Hc Hb Hn. unfold new_dd_block. rewrite Hb.
+  assert (Hsz : 0 <= newblock_size (b_ndds (m_blk hd))) by (unfold newblock_size; lia).
+  destruct (getdiskblock_shape fr _ Hc Hsz) as (fr1 & G & Gb & Ge & Gc). rewrite G, Hc.
+  eexists. split; [reflexivity|]. simpl. rewrite ?Hc. simpl. repeat split; auto; try (unfold newblock_end; lia).
+  rewrite Gb. rewrite map_app. f_equal. rewrite upd_block_upd_list.
+  rewrite (map_upd_list m_blk _ (fun m => set_next m (f_end fr))) by reflexivity.
+  rewrite ?Hb. simpl. rewrite ?map_length. reflexivity.
+Qed.
+
+Lemma find_null_dds_spec l i : find_null_dds l = Some i -> exists a, nth_error l i = Some a /\ d_tag a = DFTAG_NULL.
+Proof.
+  revert i; induction l as [|a l IH]; intros i; simpl; [discriminate|].
+  destruct (Z.eqb_spec (d_tag a) DFTAG_NULL).
+  - intros H; inversion H; subst. simpl. eauto.
+  - destruct (find_null_dds l) as [j|]; [|discriminate]. intros H; inversion H; subst. simpl. apply IH. reflexivity.
+Qed.
+
+Lemma find_null_spec bl bi i :
+  find_null bl = Some (bi, i) ->
+  exists mb a, nth_error bl bi = Some mb /\ nth_error (b_dds (m_blk mb)) i = Some a /\ d_tag a = DFTAG_NULL.
+Proof.
+  revert bi i; induction bl as [|b bl IH]; intros bi i; simpl; [discriminate|].
+  destruct (find_null_dds (b_dds (m_blk b))) as [j|] eqn:F.
+  - intros H; inversion H; subst. destruct (find_null_dds_spec _ _ F) as (a & Ha & Hn). exists b, a. simpl. auto.
+  - destruct (find_null bl) as [[bj j]|] eqn:F2; [|discriminate]. intros H; inversion H; subst.
+    destruct (IH _ _ eq_refl) as (mb & a & H1 & H2 & H3). exists mb, a. simpl. auto.
+Qed.
+
+(** ---- the invariant attached to the model state *)
+Definition PFr (img0 : image) (bl0 : list block) (img : image) (fr : frec) (T : list tri) : Prop :=
+  PF img0 bl0 img (map m_blk (f_blocks fr)) (f_end fr) T /\ f_cache fr = true.
+
+Definition slot_free (T : list tri) (bi i : nat) : Prop :=
+  exists t a, nth_error T bi = Some t /\ nth_error (b_dds (t_d t)) i = Some a /\ d_tag a = DFTAG_NULL.
+
+Lemma slot_free_upd T k g bi i : slot_free T bi i -> slot_free (upd_tm k g T) bi i.
+Proof.
+  intros (t & a & H1 & H2 & H3). unfold upd_tm. destruct (Nat.eq_dec k bi) as [->|Hne].
+  - eexists. exists a. split; [apply nth_error_upd_list; exact H1|]. simpl. auto.
+  - exists t, a. rewrite nth_error_upd_list_other by exact Hne. auto.
+Qed.
+
+Lemma Above_upd bl0 T k g z : Above bl0 T z -> Above bl0 (upd_tm k g T) z.
+Proof.
+  intros (A & B & C). unfold Above. replace (map t_d (upd_tm k g T)) with (map t_d T); auto.
+  symmetry. apply map_upd_list_same. reflexivity.
+Qed.
+
+Lemma step_update img0 bl0 img fr T bi i d :
+  PFr img0 bl0 img fr T -> slot_free T bi i -> dd_in_range d ->
+  exists fr', update_dd fr bi i d = (fr', []) /\ PFr img0 bl0 img fr' (upd_tm bi (fill i d) T) /\
+    f_end fr <= f_end fr' /\ (dd_valid d = true -> d_off d + d_len d <= f_end fr') /\
+    (f_end fr' = f_end fr \/ (dd_valid d = true /\ f_end fr' = d_off d + d_len d)).
+Proof.
+  intros [P Hc] (t & a & H1 & H2 & H3) Hr.
+  destruct (update_dd_shape fr bi i d Hc) as (fr' & U & Ub & Uc & Ue & Uv & Ux).
+  exists fr'. split; [exact U|]. split; [|auto]. split; [|exact Uc].
+  rewrite Ub. apply (L_end _ _ _ _ (f_end fr)); [|exact Ue].
+  eapply L_upd; eauto.
+Qed.
+
+Lemma PF_T_nonempty img0 bl0 img M e T : PF img0 bl0 img M e T -> exists t T', T = t :: T'.
+Proof. intros (_ & I & _). destruct I as [_ _ Ifst _ _ _ _]. destruct T; [contradiction|eauto]. Qed.
+
+Lemma nth_error_snoc {A} (l : list A) x : nth_error (l ++ [x]) (length l) = Some x.
+Proof. induction l; simpl; auto. Qed.
+
+(** HTPcreate *)
+Lemma step_create img0 bl0 img fr T tag ref :
+  PFr img0 bl0 img fr T -> 0 <= tag < 65536 -> 0 <= ref < 65536 ->
+  forall slot fr' w, create_dd fr tag ref = (slot, fr', w) -> f_end fr' < 2147483648 ->
+  exists T', PFr img0 bl0 (apply_log img w) fr' T' /\ slot_free T' (fst slot) (snd slot) /\ f_end fr <= f_end fr'.
+Proof.
+  intros PR Ht Hrf slot fr' w Hcr Hb.
+  assert (Hd : dd_in_range (mkdd tag ref INVALID_OFFSET INVALID_LENGTH)).
+  { unfold dd_in_range, INVALID_OFFSET, INVALID_LENGTH; simpl. lia. }
+  unfold create_dd in Hcr. destruct (find_null (f_blocks fr)) as [s|] eqn:F.
+  - (* a NIL slot exists *)
+    destruct s as [bi i].
+    assert (SF : slot_free T bi i).
+    { destruct (find_null_spec _ _ _ F) as (mb & a & N1 & N2 & N3).
+      destruct PR as [(P0 & I & HD & Hnz & Hp & HM & _) Hc].
+      assert (N1' : nth_error (map t_m T) bi = Some (m_blk mb)) by (rewrite HM; apply map_nth_error; exact N1).
+      destruct (nth_error T bi) as [t|] eqn:Nt; [|rewrite (nth_error_map t_m bi T), Nt in N1'; discriminate].
+      pose proof (map_nth_error t_m bi T Nt) as Nm. rewrite Nm in N1'. inversion N1' as [Etm].
+      pose proof (i_ok _ _ I) as Hok. rewrite Forall_forall in Hok.
+      destruct (Hok t (nth_error_In _ _ Nt)) as [(_ & _ & _ & Cd & _) _].
+      rewrite Etm in Cd. destruct (Forall2_nth_left _ _ _ _ _ Cd N2) as (a' & Ha' & [->|Hn]).
+      + exists t, a. auto.
+      + exists t, a'. auto. }
+    destruct (step_update _ _ _ _ _ _ _ _ PR SF Hd) as (fr2 & U & PR2 & Ue & _).
+    simpl in Hcr. rewrite U in Hcr. inversion Hcr; subst. simpl.
+    eexists. split; [exact PR2|]. split; [apply slot_free_upd; exact SF|exact Ue].
+  - (* a new DD block is needed *)
+    destruct (new_dd_block fr) as [frn wn] eqn:N.
+    destruct (update_dd frn (fst (length (f_blocks fr), 0%nat)) (snd (length (f_blocks fr), 0%nat)) _) as [fr2 w2] eqn:U.
+    inversion Hcr; subst; clear Hcr. simpl in U.
+    destruct PR as [P Hc].
+    destruct (PF_T_nonempty _ _ _ _ _ _ P) as (t0 & T0 & ET).
+    assert (HM : map t_m T = map m_blk (f_blocks fr)) by (destruct P as (_ & _ & _ & _ & _ & HM & _); exact HM).
+    destruct (f_blocks fr) as [|hd tl] eqn:Hbl; [subst T; discriminate|].
+    assert (Rn : 0 < b_ndds (m_blk hd) < 32768).
+    { subst T. simpl in HM. inversion HM as [[E1 E2]]. destruct P as (_ & I & _).
+      pose proof (i_ok _ _ I) as Hok. inversion Hok as [|? ? Hok0 _].
+      destruct Hok0 as [(_ & _ & _ & _ & (R1 & _)) _]. subst x. rewrite <- ?E1. exact R1. }
+    destruct (new_dd_block_shape fr hd tl Hc Hbl ltac:(lia)) as (frn' & N' & Nb & Ne & Nc).
+    rewrite N in N'. inversion N'; subst frn' wn; clear N'.
+    destruct (update_dd_shape frn (length (hd :: tl)) 0 (mkdd tag ref INVALID_OFFSET INVALID_LENGTH) Nc)
+      as (fr2' & U' & _ & _ & Ue' & _).
+    rewrite U in U'. inversion U'; subst fr2' w2; clear U'.
+    assert (Hbn : f_end fr + 6 + b_ndds (m_blk hd) * 12 < 2147483648) by lia.
+    pose proof (L_new _ _ _ _ _ _ _ P Rn Hbn) as PN.
+    assert (PRn : PFr img0 bl0 (new_img img (f_end fr) (b_ndds (m_blk hd))) frn
+               (upd_tm (length T - 1) (fun m => set_next m (f_end fr)) T ++
+                [mktri (new_blk (f_end fr) (b_ndds (m_blk hd))) (new_blk (f_end fr) (b_ndds (m_blk hd)))
+                       (new_blk (f_end fr) (b_ndds (m_blk hd)))])).
+    { split; [|exact Nc]. rewrite Nb, Ne. rewrite Hbl. exact PN. }
+    assert (HlenT : length T = length (hd :: tl)).
+    { rewrite <- (map_length t_m T), HM, map_length. reflexivity. }
+    assert (SF : slot_free (upd_tm (length T - 1) (fun m => set_next m (f_end fr)) T ++
+                [mktri (new_blk (f_end fr) (b_ndds (m_blk hd))) (new_blk (f_end fr) (b_ndds (m_blk hd)))
+                       (new_blk (f_end fr) (b_ndds (m_blk hd)))]) (length (hd :: tl)) 0).
+    { eexists. exists nil_dd. split.
+      - assert (EL : length (upd_tm (length T - 1) (fun m => set_next m (f_end fr)) T) = length (hd :: tl))
+          by (unfold upd_tm; rewrite length_upd_list; exact HlenT).
+        rewrite <- EL. apply nth_error_snoc.
+      - simpl. split; [|reflexivity].
+        destruct (Z.to_nat (b_ndds (m_blk hd))) eqn:Z; [lia|reflexivity]. }
+    destruct (step_update _ _ _ _ _ _ _ _ PRn SF Hd) as (fr2' & U2 & PR2 & Ue2 & _).
+    rewrite U in U2. inversion U2; subst fr2'; clear U2.
+    eexists. split; [|split].
+    + replace (apply_log img ([(f_end fr, enc_hdr (b_ndds (m_blk hd)) 0);
+                (f_end fr + hdr_sz, enc_dds (repeat nil_dd (Z.to_nat (b_ndds (m_blk hd)))))] ++ []))
+        with (new_img img (f_end fr) (b_ndds (m_blk hd))) by reflexivity.
+      exact PR2.
+    + simpl. apply slot_free_upd. exact SF.
+    + lia.
+Qed.
